@@ -207,6 +207,17 @@ class Space:
     def text(self, case):
         raise NotImplementedError
 
+    def key(self, case):
+        """string identifying the case exactly (ledger key, replay file)"""
+        return self.text(case)
+
+    def payload(self, case):
+        """what the check's evaluate() receives"""
+        return self.text(case)
+
+    def payload_from_key(self, key):
+        return key
+
     def subcases(self, case):
         """All proper, non-empty sub-cases (symbol deletions)."""
         tag, syms = case
@@ -311,8 +322,59 @@ class UnionSpace(Space):
     def subcases(self, case):
         return self._by_name[case[0]].subcases(case)
 
+    def key(self, case):
+        return self._by_name[case[0]].key(case)
+
+    def payload(self, case):
+        return self._by_name[case[0]].payload(case)
+
+    def payload_from_key(self, key):
+        return self.parts[0].payload_from_key(key)
+
     def describe(self):
         return {"name": self.name, "size": self._total, "parts": [p.describe() for p in self.parts]}
+
+
+class ConfigDocSpace(Space):
+    """documents x named configurations: case = (tag, lines, config-name).
+    Sub-cases delete lines and keep the configuration."""
+
+    def __init__(self, docspace, configs):
+        self.doc = docspace
+        self.configs = list(configs)
+        self.name = f"{docspace.name}x{len(self.configs)}cfg"
+
+    def __len__(self):
+        return len(self.doc) * len(self.configs)
+
+    def case(self, i):
+        d, c = divmod(i, len(self.configs))
+        _tag, syms = self.doc.case(d)
+        return (self.name, syms, self.configs[c])
+
+    def text(self, case):
+        return self.doc.text((self.doc.name, case[1]))
+
+    def key(self, case):
+        import json
+
+        return json.dumps([case[2], self.text(case)], ensure_ascii=True)
+
+    def payload(self, case):
+        return (case[2], self.text(case))
+
+    def payload_from_key(self, key):
+        import json
+
+        c, t = json.loads(key)
+        return (c, t)
+
+    def subcases(self, case):
+        for _tag, syms in self.doc.subcases((self.doc.name, case[1])):
+            yield (self.name, syms, case[2])
+
+    def describe(self):
+        return {"name": self.name, "size": len(self), "documents": self.doc.describe(), "configurations": len(self.configs)}
 
 
 def block_space(alphabet_name, maxlen):
